@@ -528,6 +528,29 @@ func runC18(r *Report) {
 		}
 	}
 
+	// ---- R-C18-4 a blacklist entry leaves the list only on request or once found expired ------------
+	// (a failed save that "rolls back" by deleting, or any other tidy-up, would let a blacklisted
+	// address through)
+	{
+		n := 0
+		for _, f := range r.P.FuncsIn(secPkg) {
+			for _, d := range mapDeletes(f, "blacklist") {
+				n++
+				top := Outermost(f).Name()
+				ok := strings.HasPrefix(top, "Remove") && Outermost(f).Object() != nil && Outermost(f).Object().Exported()
+				if !ok {
+					for _, ft := range Facts(d.Block()) {
+						if _, _, tme, isE := expiryCompareT(ft.Cond, 0, "IPRecord", "ExpiresAt"); isE && tme == ft.Pol {
+							ok = true
+						}
+					}
+				}
+				r.Ob("R-C18-4", d.Pos(), ok, "a blacklist entry is deleted only by the explicit removal or where the entry was found expired", r.P.FuncName(f), "blacklist-delete-justified")
+			}
+		}
+		r.Note("R-C18-4: %d direct deletes from IPManager.blacklist examined (3 on the reference tree; a removal helper that deletes through a selected list is judged by R-C18-4's expiry re-validation at its callers)", n)
+	}
+
 	// ---- R-C18-6 every decision of the bucket is taken on refilled, capped tokens ------------------
 	// Take decides (and spends) only after refill() brought the count up to date and clamped it to the
 	// capacity: a fast path that spends without refilling leaves the elapsed time in the books, and
